@@ -77,7 +77,7 @@ func cmdSelftest(args []string) int {
 				continue
 			}
 			ov := map[string][]byte{filepath.Join(*repo, m.File): []byte(strings.Replace(string(src), m.Old, m.New, 1))}
-			o := &checkOpts{repo: *repo, verif: *verif, prop: p, tier: "quick", overlay: ov, quiet: true, noEvidence: true, mirror: os.Getenv("GOVC_CONTRACTS") == "mirror"}
+			o := &checkOpts{repo: *repo, verif: *verif, prop: p, tier: "quick", overlay: ov, quiet: true, noEvidence: true, mirror: true}
 			out, err := runCheck(o)
 			if err != nil {
 				fmt.Printf("SELFTEST-ERROR %s [%s]: %v\n", m.Name, p, err)
